@@ -202,6 +202,10 @@ def judge(spec):
     # ---- second round: one more sample on the main function, solve again, read the tables again
     try:
         main = ctx.funcs["f"]
+        if spec.get("n") == 2 and not spec.get("named"):
+            # the user names the function and a point AFTER the first solve: the second solve's names and labels follow
+            main.set_name("renamed_f")
+            ctx.points["x0"].set_name("renamed_x0")
         extra_pt = 0.5 * ctx.points["x0"] + 0.5 * ctx.points["xn"]
         if spec["cls"] == "LinearOperator":
             main.T.oracle(extra_pt)
